@@ -77,6 +77,7 @@ type WorkerResult struct {
 	FirstRun   uint64                 `json:"first_run_seed"`
 	LastRun    uint64                 `json:"last_run_seed"`
 	Samples    []Sample               `json:"samples"`
+	fallback   []Sample
 	Violations []ViolationReport      `json:"violations"`
 	KnownHits  map[string]int         `json:"known_hits"`
 	KnownMsgs  map[string]string      `json:"known_msgs"`
@@ -406,6 +407,15 @@ func absorb(res *WorkerResult, r *Run, sigs map[string]struct{}, states map[uint
 			res.KnownMsgs[k.KnownID] = k.Property + " " + k.Msg
 		}
 	}
+	if !r.nontriv && len(res.Samples) == 0 && len(res.fallback) < 2 {
+		// keep a couple of trivial runs as well, so that a batch without any
+		// non-trivial run can still show what its cases looked like
+		ev := r.lines
+		if len(ev) > 30 {
+			ev = ev[:30]
+		}
+		res.fallback = append(res.fallback, Sample{RunSeed: r.Seed, Meta: r.Meta, Choices: len(r.C.Recorded()), Events: ev})
+	}
 	if r.nontriv {
 		res.NonTrivial++
 		s := r.sigHex()
@@ -423,6 +433,9 @@ func absorb(res *WorkerResult, r *Run, sigs map[string]struct{}, states map[uint
 }
 
 func finish(res *WorkerResult, sigs map[string]struct{}, states map[uint64]struct{}) {
+	if len(res.Samples) == 0 {
+		res.Samples = append(res.Samples, res.fallback...)
+	}
 	res.Signatures = res.Signatures[:0]
 	for s := range sigs {
 		res.Signatures = append(res.Signatures, s)
